@@ -80,6 +80,7 @@ def one(seed):
     H.ev = lambda kind, obj, fn: None
     th, qm = detsched.make_shims(S, H)
     tp = detsched.load_module_with_shims("jsonrpclib.threadpool", th, qm)
+    detsched.trace_fields(S, tp.ThreadPool, detsched.POOL_COUNTERS, "_ThreadPool__lock")
     H.srcfile = tp.__file__
     import jsonrpclib.config
     from jsonrpclib.SimpleJSONRPCServer import PooledJSONRPCServer
